@@ -49,6 +49,7 @@ structure DState where
   enhanced : Bool := true
   visGuard : Bool := true     -- F=0 replays the behaviour before the `fix:` commit (F7)
   exactGuard : Bool := true   -- X=0 replays the behaviour before the `fix:` commit (F10)
+  aliasGuard : Bool := true   -- A=0 replays the behaviour before the `fix:` commit (F11)
   mesh : Mesh := {}
   raw : List Svc := []        -- as declared
   built : Bool := false
@@ -106,7 +107,7 @@ def showDRs (l : List (String × List CDR)) : String :=
     enc h ++ ">" ++ "&".intercalate (cs.map fun c => "+".intercalate (c.frm.map fun f => enc (f.1 ++ "/" ++ f.2))))
 
 def DState.flags (d : DState) : Flags :=
-  { unified := d.unified, pickBest := d.pickBest, enhanced := d.enhanced, visGuard := d.visGuard, exactGuard := d.exactGuard }
+  { unified := d.unified, pickBest := d.pickBest, enhanced := d.enhanced, visGuard := d.visGuard, exactGuard := d.exactGuard, aliasGuard := d.aliasGuard }
 
 def showScope (d : DState) (name : String) (ls : List ILW) (services : List Svc) (cfgNs : String) : String :=
   let lst := ls.map fun l => showSvcs l.services false ++ "/" ++ showVSs l.vss
@@ -144,7 +145,8 @@ def query (d : DState) (toks : List String) : String :=
     let cfgNs := dec ns
     let sc := pickSidecar d.mesh d.scs cfgNs ((decLabels lbl).getD [])
     let services := scopeServices d.flags d.mesh d.svcs d.vss sc cfgNs
-    let names := services.flatMap fun s => s.ports.map fun p => "outbound|" ++ toString p.num ++ "||" ++ s.hostname
+    -- ExternalName (Alias) services have no cluster of their own
+    let names := (services.filter (·.extName.isNone)).flatMap fun s => s.ports.map fun p => "outbound|" ++ toString p.num ++ "||" ++ s.hostname
     "C=" ++ encSet names
   | ["gw", ns] =>
     let cfgNs := dec ns
@@ -154,24 +156,31 @@ def query (d : DState) (toks : List String) : String :=
       showScope d (cfgNs ++ "/default-sidecar") ls (collectImportedServices d.flags d.mesh d.svcs cfgNs ls) cfgNs
     else
     let vs := gatewayVirtualServices d.mesh d.vss cfgNs
-    let services := gatewayScopeServices d.mesh d.svcs cfgNs
+    let services := gatewayScopeServices d.aliasGuard d.mesh d.svcs cfgNs
     showScope d (cfgNs ++ "/default-sidecar") [{ matchPort := none, hosts := [], services := [], vss := vs }] services cfgNs
   | _ => "bad-op"
+
+def mkSvcD (id h ns reg ct name ports ex vis res attr al : String) (x : Option String) : Svc :=
+  { id := dec id, hostname := dec h, ns := dec ns, name := dec name, k8s := reg == "k",
+    ctime := ct.toNat!, ports := decPorts ports, exportTo := decItems ex ",",
+    vis := decVis vis, resolution := res.toNat!, attr := dec attr, aliases := decAliases al, extName := x }
 
 def stepD (d : DState) (toks : List String) : DState × String :=
   match toks with
   | "case" :: rest =>
     ({ unified := flagOf rest "U" true, pickBest := flagOf rest "P" true, enhanced := flagOf rest "E" true,
-       visGuard := flagOf rest "F" true, exactGuard := flagOf rest "X" true }, "ok")
+       visGuard := flagOf rest "F" true, exactGuard := flagOf rest "X" true,
+       aliasGuard := flagOf rest "A" true }, "ok")
   | ["h", n, m] => (d, hostLine (dec n) (dec m))
   | ["mesh", root, ds, dv, dd, ap] =>
     ({ d with mesh := { rootNs := dec root, defSvc := decOptList ds, defVS := decOptList dv,
                         defDR := decOptList dd, applyToSidecars := tokBool ap } }, "ok")
   | ["svc", id, h, ns, reg, ct, name, ports, ex, vis, res, attr, al] =>
-    let s : Svc := { id := dec id, hostname := dec h, ns := dec ns, name := dec name, k8s := reg == "k",
-                     ctime := ct.toNat!, ports := decPorts ports, exportTo := decItems ex ",",
-                     vis := decVis vis, resolution := res.toNat!, attr := dec attr, aliases := decAliases al }
-    ({ d with raw := d.raw ++ [s] }, "ok")
+    ({ d with raw := d.raw ++ [mkSvcD id h ns reg ct name ports ex vis res attr al none] }, "ok")
+  | ["svc", id, h, ns, reg, ct, name, ports, ex, vis, res, attr, al, x] =>
+    if x.startsWith "x=" then
+      ({ d with raw := d.raw ++ [mkSvcD id h ns reg ct name ports ex vis res attr al (some (dec (x.drop 2).toString))] }, "ok")
+    else (d, "bad-op")
   | ["vs", name, ns, ct, hosts, ex, gws, gwsem, http, tcp] =>
     let v : VS := { name := dec name, ns := dec ns, ctime := ct.toNat!, hosts := decItems hosts ",",
                     exportTo := decItems ex ",", gateways := decItems gws ",", gwSem := tokBool gwsem,
@@ -186,7 +195,7 @@ def stepD (d : DState) (toks : List String) : DState × String :=
                          egress := decEgress egress }
     ({ d with scs := d.scs ++ [c] }, "ok")
   | ["build"] =>
-    ({ d with built := true, defaultNs := [], svcs := sortServices d.raw, vss := sortVS d.vssRaw,
+    ({ d with built := true, defaultNs := [], svcs := resolveAliases (sortServices d.raw), vss := sortVS d.vssRaw,
               drIdx := setDestinationRules d.enhanced d.mesh d.drs }, "ok")
   | [q, ns, lbl] =>
     if q != "scope" && q != "xds" then (if d.built then (d, query d toks) else (d, "not-built")) else
